@@ -18,7 +18,7 @@ use sexp::Sexp;
 
 type R<T> = Result<T, String>;
 
-fn cps_to_string(s: &Sexp) -> R<String> {
+pub(crate) fn cps_to_string(s: &Sexp) -> R<String> {
     match s {
         Sexp::L(items) if matches!(items.first(), Some(Sexp::A(a)) if a == "s") => items[1..]
             .iter()
@@ -34,13 +34,13 @@ fn cps_to_string(s: &Sexp) -> R<String> {
         _ => Err("str expected".into()),
     }
 }
-fn atom<'a>(s: &'a Sexp) -> R<&'a str> {
+pub(crate) fn atom<'a>(s: &'a Sexp) -> R<&'a str> {
     match s {
         Sexp::A(a) => Ok(a.as_str()),
         _ => Err("atom expected".into()),
     }
 }
-fn int(s: &Sexp) -> R<i64> {
+pub(crate) fn int(s: &Sexp) -> R<i64> {
     atom(s)?.parse::<i64>().map_err(|e| e.to_string())
 }
 fn oint(s: &Sexp) -> R<Option<i64>> {
@@ -50,7 +50,7 @@ fn oint(s: &Sexp) -> R<Option<i64>> {
         int(s).map(Some)
     }
 }
-fn boolean(s: &Sexp) -> R<bool> {
+pub(crate) fn boolean(s: &Sexp) -> R<bool> {
     match atom(s)? {
         "1" => Ok(true),
         "0" => Ok(false),
@@ -58,16 +58,16 @@ fn boolean(s: &Sexp) -> R<bool> {
     }
 }
 /// exact m * 2^e as f64 (the generators keep |m| < 2^53 and e in the normal range)
-fn dyadic(m: i64, e: i64) -> f64 {
+pub(crate) fn dyadic(m: i64, e: i64) -> f64 {
     (m as f64) * 2f64.powi(e as i32)
 }
-fn list(s: &Sexp) -> R<&[Sexp]> {
+pub(crate) fn list(s: &Sexp) -> R<&[Sexp]> {
     match s {
         Sexp::L(items) => Ok(items.as_slice()),
         _ => Err("list expected".into()),
     }
 }
-fn head<'a>(s: &'a Sexp) -> R<(&'a str, &'a [Sexp])> {
+pub(crate) fn head<'a>(s: &'a Sexp) -> R<(&'a str, &'a [Sexp])> {
     match s {
         Sexp::L(items) if !items.is_empty() => Ok((atom(&items[0])?, &items[1..])),
         Sexp::A(a) => Ok((a.as_str(), &[])),
@@ -757,6 +757,7 @@ fn main_loop() {
             ("ROB", 4) => run_rob(f[2], f[3]),
             ("ROBAST", 4) => run_robast(f[2], f[3]),
             ("GEN", 4) => second::run_gen(f[2], f[3]),
+            ("GENU", 4) => second::run_genu(f[2], f[3]),
             _ => Err(format!("unknown case kind {}", f[0])),
         }));
         match res {
